@@ -46,6 +46,7 @@ pub fn serve<F: FnMut(&KV) -> String>(engine: &str, mut f: F) {
     let stdin = io::stdin();
     let stdout = io::stdout();
     let mut out = io::BufWriter::new(stdout.lock());
+    let flush_each = std::env::var("GA_FLUSH").is_ok();
     for line in stdin.lock().lines() {
         let line = match line {
             Ok(l) => l,
@@ -64,6 +65,10 @@ pub fn serve<F: FnMut(&KV) -> String>(engine: &str, mut f: F) {
         }
         let ans = f(&kv);
         writeln!(out, "{} {}", seq, ans).unwrap();
+        if flush_each {
+            // under Miri a UB report ends the process: the last answered line identifies the scenario
+            out.flush().unwrap();
+        }
     }
     out.flush().unwrap();
 }
